@@ -3,7 +3,9 @@ package harness
 // Shared rapid generators: sequences, locations (boundary-biased), features, tables.
 
 import (
+	"bytes"
 	"fmt"
+	"io"
 	"testing"
 
 	"github.com/go-gts/gts"
@@ -375,4 +377,58 @@ func rapidTwinsPart[C any](t *testing.T, p *Prop[C], st *Stats, n int, gen func(
 	genTwins = true
 	defer func() { genTwins = false }()
 	rapidPart(t, p, st, "rapid-twins", n, gen)
+}
+
+// ---- delivery: the same bytes through io.Readers that hand them over differently --------------------------------
+
+// deliveryNames lists the reader behaviours (all within the io.Reader contract: never (0, nil)).
+var deliveryNames = []string{"whole", "one-byte", "7-byte", "4095-byte", "half", "data-with-eof", "ragged", "4097-byte"}
+
+type chunkReader struct {
+	data  []byte
+	sizes []int // cycled
+	k     int
+	eofW  bool // the last bytes come together with io.EOF
+}
+
+func (r *chunkReader) Read(p []byte) (int, error) {
+	if len(r.data) == 0 {
+		return 0, io.EOF
+	}
+	if len(p) == 0 {
+		return 0, nil
+	}
+	n := r.sizes[r.k%len(r.sizes)]
+	r.k++
+	if n <= 0 { // half of what is asked for, at least one
+		n = (len(p) + 1) / 2
+	}
+	n = minInt(n, minInt(len(p), len(r.data)))
+	copy(p, r.data[:n])
+	r.data = r.data[n:]
+	if r.eofW && len(r.data) == 0 {
+		return n, io.EOF
+	}
+	return n, nil
+}
+
+// deliver returns a reader over data that behaves like deliveryNames[how].
+func deliver(data []byte, how int) io.Reader {
+	switch how % len(deliveryNames) {
+	case 1:
+		return &chunkReader{data: data, sizes: []int{1}}
+	case 2:
+		return &chunkReader{data: data, sizes: []int{7}}
+	case 3:
+		return &chunkReader{data: data, sizes: []int{4095}}
+	case 4:
+		return &chunkReader{data: data, sizes: []int{0}}
+	case 5:
+		return &chunkReader{data: data, sizes: []int{1 << 30}, eofW: true}
+	case 6:
+		return &chunkReader{data: data, sizes: []int{1, 2, 3, 5, 8, 13, 21, 34, 55, 89, 144, 233, 377, 610, 987, 1597, 2584, 4096}}
+	case 7:
+		return &chunkReader{data: data, sizes: []int{4096, 1}}
+	}
+	return bytes.NewReader(data)
 }
